@@ -19,7 +19,7 @@ N_PEG = 'trusted: pest implements PEG semantics as documented; the pegsmt encode
 ENGINES = [
     {'name': 'E3-pegsmt', 'path': 'pegsmt/', 'serves_properties': ['C01', 'C03'],
      'kind_free_text': 'PEG-to-SMT encoder for crates/core/src/parser/grammar.pest, re-read on every run'},
-    {'name': 'E1-kani', 'path': 'kani/', 'serves_properties': ['C07', 'C11'],
+    {'name': 'E1-kani', 'path': 'kani/', 'serves_properties': ['C07', 'C11', 'C17'],
      'kind_free_text': 'Kani proof harnesses over the real liquid-core code for scalar-level units (symbolic i64/f64/bool inputs, all bit patterns), unwinding assertions on, cover! vacuity witnesses'},
     {'name': 'E2-mirsym', 'path': 'mirsym/', 'serves_properties': ['C01', 'C04', 'C05', 'C06', 'C07', 'C08', 'C10', 'C15', 'C18'],
      'kind_free_text': 'MIR symbolic executor (Python + z3): rustc --emit=mir of /repo working tree on every run, path enumeration with symbolic leaves, listed library models, native replay of counterexamples'},
@@ -48,6 +48,10 @@ CHECKS = {
             'text': 'Grammar facets for every string of up to N code points: trim-whitespace set is exactly {space, tab, LF, CR}; trimming start/end delimiters consume exactly the adjacent whitespace run, plain ones nothing else; Raw text is maximal, contains no start delimiter, and plain text is a single Raw covering the input.'},
     'C08': {'engine': 'E2-mirsym', 'technique': T_MIR, 'note': N_MIR + '; partial store, partial template, argument expressions and the caller runtime are abstract stubs; the meaning of the scope shapes comes from the C18 frame lemmas',
             'text': 'Real MIR of Include::render_to and Render::render_to (plain and for-as forms): the partial is rendered with exactly StackFrame(caller, args) resp. GlobalFrame(SandboxedStackFrame(caller, args [+forloop, item])), the caller writer, truthful forloop, interrupts of a rendered partial stay in the sandbox registers and are reset per iteration, name / name.liquid lookup order, errors (never Ok, never panic) for non-string names, unevaluable arguments and missing partials.'},
+    'C12': {'engine': 'E2-mirsym', 'technique': T_MIR, 'note': N_MIR + '; the wrapped view is an abstract object answering each method with a distinct token',
+            'text': 'Facets: (1) real MIR of every ValueView method of the forwarding impls (&T, Option<T>, ValueCow Borrowed/Owned): exactly one call of the same method on the wrapped view with the same arguments, result returned unchanged; None answers like Value::Nil; (2) real MIR of ScalarSerializer/ValueSerializer::serialize_{i8..u64}: the same integer for ALL values of each type or an error when it exceeds i64. serde round-trips, JSON/YAML and derive-vs-serde equivalence are outside (generic visitor code over third-party crates).'},
+    'C17': {'engine': 'E1-kani', 'technique': T_KANI, 'note': N_KANI,
+            'text': 'Facet: Kani proves that DateTime equality and ordering (through ScalarCow) are chronological for two instants within +-100000 s of a base date, each displayed in any whole-hour offset -12..+14. strftime directive semantics and parse/print round-trips are not covered yet (see DESIGN.md).'},
 }
 
 NOT_BUILT = 'not claimed yet: obligations for this property are not built in this revision (see DESIGN.md §4)'
@@ -55,5 +59,5 @@ NOT_APPLICABLE = {
     'C09': 'quantifies over histories of whole parse+render calls; needs the pest parser and HashMap-backed registers inside the solver (measured out of reach) or a frame condition that is a typing fact, not a solver query (DESIGN.md §5)',
     'C20': 'quantifies over thread schedules; Kani does not support concurrency and the MIR executor has no interleaving semantics (DESIGN.md §5)',
 }
-for _p in ['C02', 'C08', 'C12', 'C13', 'C14', 'C16', 'C17', 'C19']:
+for _p in ['C02', 'C08', 'C12', 'C13', 'C14', 'C16', 'C19']:
     NOT_APPLICABLE.setdefault(_p, NOT_BUILT)
